@@ -29,5 +29,5 @@ PY
 done
 export GOFLAGS=-mod=mod GOPROXY=off GOSUMDB=off GOTOOLCHAIN=local
 # the variant must still type-check where the original did
-RS_REPO=$d RS_VERIF=${RS_VERIF:-$d/verif} /verif/bin/rscheck -prop "$prop" 2>&1 | grep -v '^normalisation\|^loaded' | sed "s#$d/##g"
+RS_REPO=$d RS_VERIF=${RS_VERIF:-$d/verif} ${RS_BIN:-/verif/bin/rscheck} -prop "$prop" ${RS_ARGS:-} 2>&1 | grep -v '^normalisation\|^loaded' | sed "s#$d/##g"
 exit 0
